@@ -112,3 +112,27 @@ def register_adapter(R):
         modifies=["ghost.TBUF", "ghost.drained_since_write", "ghost.futures_awaited"] + pmods,
         tags="C04 C20",
     )
+    register_adapter_close(R)
+
+
+def register_adapter_close(R):
+    """AsyncioTransportStreamSocketAdapter.aclose (C14): the asyncio transport's close() has been requested on every exit -
+    also when the wait for connection_lost() is cancelled - and an EOF that cannot be written does not prevent the close."""
+    R.module("easynetwork/lowlevel/api_async/backend/_asyncio/stream/socket.py")
+    R.shape("StreamReaderBufferedProtocolC", cls="StreamReaderBufferedProtocol", fields={"__closed": "FutureModel"})
+    R.inline_fn("StreamReaderBufferedProtocol._get_close_waiter")
+    R.shape("AsyncioTransportStreamSocketAdapterC", cls="AsyncioTransportStreamSocketAdapter",
+            fields={"__backend": "AsyncBackend", "__transport": "AsyncioTransportModel", "__protocol": "StreamReaderBufferedProtocolC", "__closing": "bool"})
+    closed = [("the-asyncio-transport-has-been-asked-to-close", "self.__transport.closing", "C14"), ("closing-flag-set", "self.__closing", "C14")]
+    R.contract(
+        "AsyncioTransportStreamSocketAdapter.aclose", self_shape="AsyncioTransportStreamSocketAdapterC",
+        ensures=closed + [("returns-only-once-the-connection-is-really-gone (connection_lost() completed the close waiter)", "not self.__protocol._StreamReaderBufferedProtocol__closed.pending", "C14")],
+        raises={"BaseException": closed},
+        modifies=["self.__closing", "self.__transport.closing", "self.__protocol._StreamReaderBufferedProtocol__closed.pending",
+                  "self.__protocol._StreamReaderBufferedProtocol__closed.result_set", "self.__protocol._StreamReaderBufferedProtocol__closed.exception_set",
+                  "self.__protocol._StreamReaderBufferedProtocol__closed.value", "ghost.futures_awaited"],
+        env={"rely_havoc": ["self.__protocol._StreamReaderBufferedProtocol__closed.pending", "self.__protocol._StreamReaderBufferedProtocol__closed.result_set",
+                            "self.__protocol._StreamReaderBufferedProtocol__closed.exception_set"],
+             "rely_inv": ["implies(pre(self.__transport.closing), self.__transport.closing)"]},
+        tags="C14",
+    )
